@@ -116,7 +116,7 @@ def from_bits(bits: str) -> bytes:
 # ---- value generators -----------------------------------------------------------------------------
 INT_CLASSES = ['lo', 'hi', 'zero', 'one', 'm1', 'near', 'pow2', 'rand', 'rand']
 INT_OOR = ['hi+1', 'lo-1', 'far']
-FLOAT_CLASSES = ['zero', 'nzero', 'one', 'subn', 'minnorm', 'max', 'inf', 'ninf', 'nan', 'nanp', 'rand', 'rand',
+FLOAT_CLASSES = ['zero', 'nzero', 'one', 'subn', 'minnorm', 'max', 'edge', 'inf', 'ninf', 'nan', 'nanp', 'rand', 'rand',
                  'round', 'tie', 'intval']
 
 
@@ -195,6 +195,14 @@ def float_value(rng, c: str, cls: str):
         if math.isinf(y) or math.isnan(y):
             return x
         return (x + y) / 2 if cls == 'tie' else x + (y - x) * rng.choice([0.25, 0.75, 0.4999, 0.5001, 1e-9])
+    if cls == 'edge':
+        # just above the largest finite value, still below the point where rounding goes to infinity: struct gives the largest value
+        fmax = f_from_raw(w, ((emax - 1) << mb) | ((1 << mb) - 1))
+        if w == 64:
+            return -fmax if sign else fmax
+        thr = fmax + 2.0 ** ((emax - 1) - (1 << (eb - 1)) + 1 - mb - 1)     # fmax + half an ulp
+        v = rng.choice([math.nextafter(fmax, math.inf), (fmax + thr) / 2, math.nextafter(thr, 0.0), fmax * (1 + 2.0 ** -(mb + 3))])
+        return -v if sign else v
     if cls == 'intval':
         return rng.choice([0, 1, -1, 2, 7, -100, 1024, 2047])          # a Python int handed to a float code
     raise KeyError(cls)
